@@ -428,8 +428,9 @@ def explore_item(item, r: common.Result, only_history=None, only_reads=None):
         rv = ref_eval(h)
         check_on(h, st, "fresh", rv, None)
         # the first history reaching this state, on one live instance evaluated at a subset of the points
+        tier = item.get("tier", "thorough")
         for rk in rkinds:
-            for pts in point_sets(len(h), item.get("tier", "thorough")):
+            for pts in point_sets(len(h), tier):
                 check_live_variant(h, rk, pts, rv)
 
     def check_live_variant(h, rk, pts, rv=None):
